@@ -38,6 +38,14 @@ if SYMBOLIC:
     from vlib import chfix
     chfix.install()
     STUBS.append('crosshair relib.unicode_ignorecase_mask: escape literal before re.compile (CrossHair 0.0.110 bug)')
+    # Immutable.__init__ stores hash(tuple(fields)); with symbolic fields CrossHair hands back a symbolic int, which
+    # Python refuses as a __hash__ result.  Return the same value, realised.
+    from crosshair.core import realize as _rz
+
+    def _immutable_hash(self):
+        return _rz(self._hash)
+    ct.Immutable.__hash__ = _immutable_hash
+    STUBS.append('css_types.Immutable.__hash__ returns the stored hash realised to a plain int')
 
 
 def ret(ok: bool) -> bool:
